@@ -823,6 +823,10 @@ func buildSelectAliasMap(fields []Field) map[string]string {
 	for _, f := range fields {
 		if f.Alias != "" {
 			m[f.Expression] = f.Alias
+			// GROUP BY items are stored with blanks collapsed ("concat(a,b)"): index that spelling too
+			if c := collapseSpacesOutsideQuotes(f.Expression); c != f.Expression {
+				m[c] = f.Alias
+			}
 		}
 	}
 	return m
